@@ -149,11 +149,13 @@ def d4_sync_not_tapered(ctx):
         fi = repo.fn(q)
         du = DefUse(fi.node)
         tainted = set()
+        tainted_args = []
         for c in resolved_calls(repo, fi, CLS + ".extract_lfp"):
             b = bind(c, lfp)
             for p in mut_params:
                 if p in b.bound:
                     tainted |= buffer_roots(repo, fi, du, b.bound[p], c)
+                    tainted_args.append((b.bound[p], c))
         for c in resolved_calls(repo, fi, CLS + "._ind2save"):
             b = bind(c, ind)
             sy = b.bound.get("chunk_sync")
@@ -162,11 +164,71 @@ def d4_sync_not_tapered(ctx):
             n += 1
             roots = buffer_roots(repo, fi, du, sy, c)
             shared = {r for r in roots & tainted if not r.startswith("fresh@")}
+            if shared and tainted_args:
+                # same buffer, but possibly disjoint leading-axis ranges:  B[:a] (tapered)  versus  B[b:] (sync) with a <= b
+                rs = _leading_region(repo, fi, du, sy, c)
+                if rs is not None and all(_disjoint(repo, rs, _leading_region(repo, fi, du, ta, tc)) for ta, tc in tainted_args):
+                    ctx.ok(fi, c, f"sync rows {rs[3]} and tapered rows are disjoint ranges of one buffer", "sync words and the tapered rows are disjoint row ranges of the window buffer",
+                           key="sync-alias:" + q)
+                    continue
             ctx.check(not shared, fi, c, f"sync buffer roots {sorted(roots)} ; tapered buffer roots {sorted(tainted)}", "sync words are read from a buffer the low-pass stage never touches",
                       f"the sync handed to _ind2save is a view of the buffer {sorted(shared)} that extract_lfp tapers in place (its `{', '.join(mut_params)}` argument): the first and last "
                       "sync words of the file are scaled by the cosine ramp instead of being every 12th AP sync word", key="sync-alias:" + q)
     if n == 0:
         raise AnchorMissing("no _ind2save call with a sync argument found")
+
+
+def _leading_region(repo, fi, du, e, at, depth=0):
+    """(root name, lower expr or None, upper expr or None, text) when e is, through views that keep the leading axis (a repository
+    helper returning a view of its argument, further slicing), a leading-axis slice ROOT[lo:hi] of a local buffer; else None."""
+    from sa.calls import bind
+    from sa.common import returns_view_of_param
+    if depth > 6 or e is None:
+        return None
+    if isinstance(e, ast.Call):
+        qn = repo.resolve_call(fi, e)
+        if qn in repo.functions:
+            callee = repo.functions[qn]
+            p = returns_view_of_param(repo, callee)
+            if p:
+                # the returned view must keep the leading axis whole (x[:, ...]) - otherwise the region is only narrower, still inside
+                return _leading_region(repo, fi, du, bind(e, callee).bound.get(p), at, depth + 1)
+        return None
+    if isinstance(e, ast.Name):
+        d = du.single_def_value(e.id, at)
+        if d is not None and d.kind == "assign" and d.value is not None and d.unpack_index is None:
+            return _leading_region(repo, fi, du, d.value, d.stmt, depth + 1)
+        return None
+    if isinstance(e, ast.Subscript) and isinstance(e.value, ast.Name):
+        sl = e.slice.elts[0] if isinstance(e.slice, ast.Tuple) and e.slice.elts else e.slice
+        if isinstance(sl, ast.Slice) and sl.step is None:
+            return (e.value.id, sl.lower, sl.upper, src(e))
+        return None
+    if isinstance(e, ast.Subscript):
+        # a further view of a view: only column / stride selections that keep the leading axis are looked through
+        sl = e.slice.elts[0] if isinstance(e.slice, ast.Tuple) and e.slice.elts else None
+        if isinstance(sl, ast.Slice) and sl.lower is None and sl.upper is None and sl.step is None:
+            return _leading_region(repo, fi, du, e.value, at, depth + 1)
+    return None
+
+
+def _disjoint(repo, r1, r2) -> bool:
+    """ROOT[:a] and ROOT[b:] (either order) with b - a a non-negative constant under init_params' own definitions."""
+    if r1 is None or r2 is None or r1[0] != r2[0]:
+        return False
+    ifi, env, facts = np2.init_env(repo)
+    ev = Evaluator(env=env, facts=facts)
+    for lo_side, hi_side in ((r1, r2), (r2, r1)):
+        hi, lo = hi_side[2], lo_side[1]   # hi_side = ROOT[..:hi], lo_side = ROOT[lo:..]
+        if hi is None or lo is None:
+            continue
+        try:
+            d = (ev.ev(lo) - ev.ev(hi)).const_value()
+        except Undecided:
+            d = None
+        if d is not None and d >= 0:
+            return True
+    return False
 
 
 def d3_metadata(ctx):
